@@ -142,6 +142,8 @@ type workerResult struct {
 	SigCapped    bool             `json:"sig_capped"`
 	TimedOut     bool             `json:"timed_out"`
 	GoVersion    string           `json:"go_version"`
+	Goroutines   int              `json:"goroutines_at_end"`
+	HeapMB       uint64           `json:"heap_mb_at_end"`
 	RaceEnabled  bool             `json:"race_enabled"`
 }
 
@@ -474,6 +476,10 @@ func WorkerMain(t *testing.T, c *Check) {
 	}
 
 	res.WallS = time.Since(start).Seconds()
+	res.Goroutines = runtime.NumGoroutine()
+	var ms runtime.MemStats
+	runtime.ReadMemStats(&ms)
+	res.HeapMB = ms.HeapAlloc >> 20
 	writeResult(out, res)
 }
 
